@@ -15,7 +15,7 @@ use std::process::{Command, Stdio};
 use std::time::{Duration, Instant};
 use xml_schema_generator::{Element, Options, SortBy};
 
-pub const PARTS: &[&str] = &["bytes", "tokens", "edits", "edits2", "long", "wide", "depth", "reader", "reader-docs"];
+pub const PARTS: &[&str] = &["bytes", "tokens", "edits", "edits2", "long", "wide", "trees", "depth", "reader", "reader-docs"];
 
 fn tier_of(s: &str) -> Tier {
     if s == "thorough" {
@@ -43,6 +43,7 @@ fn space(part: &str, tier: Tier) -> Option<Box<dyn InputSpace>> {
         "edits2" => Some(Box::new(Edits::new(valid_docs(tier.pick(1, 2), vec![Kind::Text, Kind::CData, Kind::Comment]), true))),
         "long" => Some(Box::new(Listed(long_inputs(tier.pick(300, 1100))))),
         "wide" => Some(Box::new(Listed(wide_inputs(tier.pick(24, 40))))),
+        "trees" => Some(Box::new(Listed(tree_inputs(tier.pick(4, 5))))),
         "reader" => Some(Box::new(Tokens { tokens: xml_tokens(), max_len: 3 })),
         "reader-docs" => Some(Box::new(Listed(valid_docs(tier.pick(3, 4), vec![Kind::Text, Kind::CData, Kind::Comment, Kind::PI])))),
         _ => None,
@@ -164,6 +165,20 @@ impl InputSpace for Listed {
     }
 }
 
+/// every ordered tree up to `max_nodes` nodes with names from {a, A, b} (a / A share their PascalCase
+/// form), the root named from the same set, at most one node decorated with attributes / text:
+/// structural name patterns that the byte and token spaces are too short to reach
+pub fn tree_inputs(max_nodes: usize) -> Vec<Vec<u8>> {
+    use crate::props::names::{for_each_tree, PoolName, TreeParams};
+    let names: Vec<PoolName> = ["a", "A", "b"].iter().map(|n| PoolName { name: n, category: "c07", element: true }).collect();
+    let params = TreeParams { min_nodes: 1, max_nodes, max_decorated: 1, root_from_subset: true, shard: (0, 1) };
+    let mut out = Vec::new();
+    for_each_tree(&names, &params, &mut |root| {
+        out.push(crate::dom::Doc::from_root(root.clone()).to_xml().into_bytes());
+    });
+    out
+}
+
 /// wide elements: n attributes (and n children) named prefix + number, plus one name with a trailing
 /// letter, in every rotation of the ascending and of the descending order (sorting code sees many
 /// different input orders of names whose numeric and lexicographic orders disagree)
@@ -208,6 +223,15 @@ pub fn long_inputs(max_offset: usize) -> Vec<Vec<u8>> {
             out.push(format!("<r><n{}/></r>", body).into_bytes());
             out.push(format!("<r n{}=\"v\"><b/></r>", body).into_bytes());
             out.push(format!("<r><!--{}--><b>{}</b><b/></r>", body, body).into_bytes());
+        }
+    }
+    // sibling names that collide after normalisation and end in a long number
+    for digits in 1..=24usize {
+        for d in ["9", "1", "0"] {
+            let num = d.repeat(digits);
+            out.push(format!("<r><e_{n}/><E_{n}/><e_{n} k=\"v\"/></r>", n = num).into_bytes());
+            out.push(format!("<r e_{n}=\"v\" E_{n}=\"v\"><e_{n}>t</e_{n}></r>", n = num).into_bytes());
+            out.push(format!("<r><e{n}/><E{n}/></r>", n = num).into_bytes());
         }
     }
     out
@@ -454,8 +478,8 @@ pub fn run(ctx: &Ctx) {
     ctx.set("exhaustive", json!(true));
     let tier = ctx.tier;
     let parts: Vec<&str> = match tier {
-        Tier::Quick => vec!["bytes", "tokens", "edits", "long", "wide", "depth", "reader", "reader-docs"],
-        Tier::Thorough => vec!["bytes", "tokens", "edits", "edits2", "long", "wide", "depth", "reader", "reader-docs"],
+        Tier::Quick => vec!["bytes", "tokens", "edits", "long", "wide", "trees", "depth", "reader", "reader-docs"],
+        Tier::Thorough => vec!["bytes", "tokens", "edits", "edits2", "long", "wide", "trees", "depth", "reader", "reader-docs"],
     };
     let mut total_calls = 0u64;
     let mut total_inputs = 0u64;
